@@ -32,10 +32,10 @@ ASSUMPTIONS = ['requests are str or None; avoid sets hold str',
                'only changed through user actions (raw doc actions are not sanitised)']
 REQUIRED = {'direct_requests': {'quick': 40000, 'thorough': 800000},
             'insitu_ids_judged': {'quick': 5000, 'thorough': 100000},
-            'insitu_requests_judged': {'quick': 600, 'thorough': 12000},
-            'contract.C21.pick_col_ident': {'quick': 600, 'thorough': 12000},
-            'contract.C21.pick_table_ident': {'quick': 100, 'thorough': 2000},
-            'contract.C21.pick_col_ident_list': {'quick': 50, 'thorough': 1000}}
+            'insitu_requests_judged': {'quick': 600, 'thorough': 8000},
+            'contract.C21.pick_col_ident': {'quick': 600, 'thorough': 7000},
+            'contract.C21.pick_table_ident': {'quick': 100, 'thorough': 1500},
+            'contract.C21.pick_col_ident_list': {'quick': 50, 'thorough': 800}}
 SHARD_TIMEOUT = {'quick': 240, 'thorough': 2400}
 
 
@@ -181,8 +181,8 @@ def plan(tier, seed):
   if tier == 'quick':
     return [{'kind': 'direct', 'rseed': seed * 100003 + i, 'n': 6000} for i in range(8)] + \
            [{'kind': 'insitu', 'rseed': seed * 100003 + 100 + i, 'steps': 160} for i in range(6)]
-  return [{'kind': 'direct', 'rseed': seed * 100003 + i, 'n': 40000} for i in range(24)] + \
-         [{'kind': 'insitu', 'rseed': seed * 100003 + 100 + i, 'steps': 800} for i in range(24)]
+  return [{'kind': 'direct', 'rseed': seed * 100003 + i, 'n': 30000} for i in range(16)] + \
+         [{'kind': 'insitu', 'rseed': seed * 100003 + 100 + i, 'steps': 600} for i in range(16)]
 
 
 def make_avoid(r, pool):
